@@ -291,10 +291,11 @@ static void runProcs(ProcScenario& sc, int lanes, int cancelUs, const char* cons
       attr.inheritEnvironment = pj->inherit;
       attr.controlEnabled = pj->control;
       q->executeProcess(ctx, cmd, env, attr, {[pj, s](ProcessResult r) {
+        std::lock_guard<std::mutex> g(s->mu);
         pj->status = (int)r.status; pj->exitCode = r.exitCode;
         if (r.pid != (llbuild_pid_t)-1) pj->pid = (long)r.pid;
         pj->cb++;
-        std::lock_guard<std::mutex> g(s->mu); s->nDone++; s->cv.notify_all();
+        s->nDone++; s->cv.notify_all();
       }});
     }));
   }
